@@ -20,7 +20,7 @@ import (
 
 // C06 — Compile is total: no panic, crash or hang; exactly one of (expr, error).
 
-const ruleC06 = "rapid: valid expression text from all fragments (incl. unconstrained ones) or token soup, then 0-3 mutations, byte-level (delete / duplicate a range, flip a byte, insert a token from a dictionary) or token-level (delete / duplicate / swap lexical words of XPath tokens, quotes, brackets, NUL, invalid UTF-8, multi-byte names) x namespace configuration (Compile; CompileWithNS with nil, empty, binding and non-binding maps). mixed: alternations of two constructs (predicate/function, predicate/arithmetic, parenthesis/union, sequence/predicate/function ...) at depths 2..198, whose compile cost must stay polynomial; two-phase: N completed sibling constructs followed by a construct nested N+250 deep (N up to 10^5 quick / 1.5*10^6 thorough) for 7 prefix x 5 nesting constructs; deep: every recursive construct of the grammar ('(', 'a[', 'f(', 'a/(', 'a/(b,', '-', 'a/', 'a//', '[1]', '1+', 'a|', 'or', '=', alternations of two) nested to depth 10^2..10^5 (10^6 for the constructs of at most four bytes per level) under an 8 MB maximum stack (quick) or ..3*10^6 (3*10^7) under the default 1 GB stack (thorough), closed and unclosed, each journalled before it runs so that a dying process is attributed. pumped segments: prefix + segment^n + suffix (n = 40; thorough 24, 40, 64, 150) for every segment of <= 3 chunks from 37 lexical chunks and small balanced constructs ('/', '(b,c)', '[b|c]', ' or ', 'not(' ...) in 5 frames, decided by an allocation budget (a Compile that passes 6*10^7 allocations is abandoned and reported) so that a cost that multiplies per repeated sibling is seen without waiting for the clock; short byte strings: every string of <= 3 bytes over 26 hostile bytes (UTF-8 lead/continuation bytes, BOM bytes, NUL, 0xFF, quotes, brackets) x 2 namespace configurations. thorough also: native go fuzzing of the same oracle. Oracle: Compile/CompileWithNS return exactly one of (non-nil expr, non-nil error); no panic escapes; the process survives; MustCompile returns a usable non-nil expression; a returned expression answers String() without panicking; every call returns within a generous wall-clock margin (re-tried once in isolation). Non-trivial: the input was mutated, or is soup, or is a depth case; distinct by input bytes + namespace configuration."
+const ruleC06 = "rapid: valid expression text from all fragments (incl. unconstrained ones) or token soup, then 0-3 mutations, byte-level (delete / duplicate a range, flip a byte, insert a token from a dictionary) or token-level (delete / duplicate / swap lexical words of XPath tokens, quotes, brackets, NUL, invalid UTF-8, multi-byte names) x namespace configuration (Compile; CompileWithNS with nil, empty, binding and non-binding maps). mixed: alternations of two constructs (predicate/function, predicate/arithmetic, parenthesis/union, sequence/predicate/function ...) at depths 2..198, whose compile cost must stay polynomial; two-phase: N completed sibling constructs followed by a construct nested N+250 deep (N up to 10^5 quick / 1.5*10^6 thorough) for 7 prefix x 5 nesting constructs; deep: every recursive construct of the grammar ('(', 'a[', 'f(', 'a/(', 'a/(b,', '-', 'a/', 'a//', '[1]', '1+', 'a|', 'or', '=', alternations of two) nested to depth 10^2..10^5 (10^6 for the constructs of at most four bytes per level) under an 8 MB maximum stack (quick) or ..3*10^6 (3*10^7) under the default 1 GB stack (thorough), closed and unclosed, each journalled before it runs so that a dying process is attributed. pumped segments: prefix + segment^n + suffix (n = 40; thorough 24, 40, 64, 150) for every segment of <= 3 chunks from 37 lexical chunks and small balanced constructs ('/', '(b,c)', '[b|c]', ' or ', 'not(' ...) in 5 frames, decided by an allocation budget (a Compile that passes 6*10^7 allocations is abandoned and reported) so that a cost that multiplies per repeated sibling is seen without waiting for the clock; short byte strings: every string of <= 3 bytes over 26 hostile bytes (UTF-8 lead/continuation bytes, BOM bytes, NUL, 0xFF, quotes, brackets) x 2 namespace configurations. thorough also: native go fuzzing of the same oracle. Oracle: Compile/CompileWithNS return exactly one of (non-nil expr, non-nil error); no panic escapes; the process survives; MustCompile returns a usable non-nil expression; a returned expression answers String() without panicking and can be used once (Select and Evaluate on a four-element document under a small operation budget) without a Go runtime error; every call returns within a generous wall-clock margin (re-tried once in isolation). Non-trivial: the input was mutated, or is soup, or is a depth case; distinct by input bytes + namespace configuration."
 
 var (
 	uC06Rapid = harness.NewUnit("C06", "rapid-mutated-inputs", ruleC06)
@@ -140,6 +140,11 @@ func checkCompileTotal(s string, hasNS bool, ns map[string]string) (accepted boo
 		}
 		if e != nil {
 			_ = e.String() // usable: must not panic (what it returns is not part of C06)
+			// usable: evaluating it on a small document may raise the package's deliberate
+			// error, it may not die of a nil query or an index the builder left behind
+			if pi := useOnce(e); pi != nil {
+				return true, dt, harness.Failf("a usable expression", pi.String(), "Compile accepted the input, and the expression it returned aborts with a Go runtime error as soon as it is used")
+			}
 		}
 		return e != nil, dt, nil
 	}
@@ -176,6 +181,39 @@ func checkCompileTotal(s string, hasNS bool, ns map[string]string) (accepted boo
 		return acc, harness.Failf("non-nil expression", "nil", "MustCompile returned nil")
 	}
 	return acc, nil
+}
+
+var c06UseDoc = xdoc.MustParse("<a x='1'><b>{t}</b><a/><!--c--></a>")
+
+// useOnce runs Select (a few steps) and Evaluate of a freshly compiled expression on a
+// small document under a small operation budget; only a Go runtime error is reported.
+func useOnce(e *xpath.Expr) (pi *harness.PanicInfo) {
+	for _, mode := range []int{0, 1} {
+		func() {
+			defer func() {
+				if r := recover(); r != nil {
+					if c := harness.Classify(r); c.IsRuntime && !c.Budget {
+						pi = c
+					}
+				}
+			}()
+			nav := c06UseDoc.Nav(xdoc.NS, c06UseDoc.Nodes[1], &xdoc.Budget{Limit: 200000})
+			if mode == 0 {
+				it := e.Select(nav)
+				for i := 0; i < 50 && it.MoveNext(); i++ {
+				}
+				return
+			}
+			if it, ok := e.Evaluate(nav).(*xpath.NodeIterator); ok {
+				for i := 0; i < 50 && it.MoveNext(); i++ {
+				}
+			}
+		}()
+		if pi != nil {
+			return pi
+		}
+	}
+	return nil
 }
 
 func clip(s string) string {
